@@ -137,7 +137,7 @@ fn window_growth<const N: usize>(max_pn_bytes: usize, bound: u64) {
 #[kani::unwind(6)]
 #[kani::stub(tokio::time::Instant::now, stub_now)]
 #[kani::stub(verif_model::VecDeque::resize, stub_resize)]
-fn c04_rcvdwin_growth_any_pn() {
+fn c04_p_rcvdwin_growth_any_pn() {
     window_growth::<2>(4, 1 << 16);
 }
 
@@ -255,7 +255,7 @@ fn c04_rcvd_on_ack_work_is_range_total() {
 /// with the sent journal before (or by) on_rcvd_ack. Bound asserted: 2^16 lookups per frame.
 #[kani::proof]
 #[kani::unwind(6)]
-fn c04_rcvd_on_ack_work_bounded() {
+fn c04_p_rcvd_on_ack_work_bounded() {
     let largest: u64 = kani::any();
     let first: u64 = kani::any();
     kani::assume(largest < M62 && first <= largest);
